@@ -202,7 +202,10 @@ pub fn gen_frame_spec(rng: &mut Rng, id: u64) -> FrameSpec {
     }
 }
 
-const MALFORMED: [&str; 16] = ["+1", "01", "1.", ".5", "1e", "--1", "1_0", "NaN", "0x10", "", "1e+", "-", "1.5.2", "1e5e5", "Infinity", "1,5"];
+const MALFORMED: [&str; 32] = [
+    "+1", "01", "1.", ".5", "1e", "--1", "1_0", "NaN", "0x10", "", "1e+", "-", "1.5.2", "1e5e5", "Infinity", "1,5", "1e+-5", "1e++5", "1e-+5", "1e--5", "+-1", ".-7", ".+6", "-.5", "1e5.", "1e 5", "1e0_5", "\\u0663", "1\\u0000",
+    " 1", "1 ", "._5",
+];
 
 /// A JSON number literal as a foreign producer might write it
 pub fn gen_numeral(rng: &mut Rng) -> String {
@@ -363,8 +366,23 @@ pub fn gen_ioplan(rng: &mut Rng, approx_len: u64, reader: bool, allow_hard: bool
 
 pub fn gen_token(rng: &mut Rng) -> Token {
     let text = |rng: &mut Rng| -> String {
-        match rng.below(6) {
+        match rng.below(7) {
             0 => rng.pick(&MALFORMED).to_string(),
+            6 => {
+                // a numeral with one character inserted, deleted or replaced
+                let mut t: Vec<char> = gen_numeral(rng).chars().take(40).collect();
+                let pos = rng.below(t.len() as u64 + 1) as usize;
+                let c = *rng.pick(&['+', '-', '.', 'e', 'E', '_', ' ', 'x', '0']);
+                match rng.below(3) {
+                    0 => t.insert(pos, c),
+                    1 if pos < t.len() => {
+                        t.remove(pos);
+                    }
+                    _ if pos < t.len() => t[pos] = c,
+                    _ => t.push(c),
+                }
+                t.into_iter().collect()
+            }
             1 => {
                 let cfg = ValueCfg::swarm(rng, 60, 200_000);
                 gen::gen_dec(rng, &cfg).0.to_bd().to_string()
@@ -413,7 +431,7 @@ pub fn gen_token(rng: &mut Rng) -> Token {
         13 | 14 => {
             let bits = match rng.below(6) {
                 0 => *rng.pick(&[0u32, 0x8000_0000, 1, 0x007F_FFFF, 0x0080_0000, 0x7F7F_FFFF, 0x7F80_0000, 0xFF80_0000, 0x7FC0_0000, 0x3F80_0000]),
-                1 => rng.below(1 << 23) as u32,
+                1 => rng.below(1 << 23) as u32 | ((rng.below(2) as u32) << 31),
                 _ => rng.next_u64() as u32,
             };
             Token::F32 { bits }
@@ -421,7 +439,7 @@ pub fn gen_token(rng: &mut Rng) -> Token {
         15 | 16 => {
             let bits = match rng.below(6) {
                 0 => *rng.pick(&[0u64, 1 << 63, 1, (1 << 52) - 1, 1 << 52, f64::MAX.to_bits(), f64::INFINITY.to_bits(), f64::NEG_INFINITY.to_bits(), f64::NAN.to_bits(), 0.1f64.to_bits()]),
-                1 => rng.below(1 << 52),
+                1 => rng.below(1 << 52) | (rng.below(2) << 63),
                 _ => rng.next_u64(),
             };
             Token::F64 { bits }
